@@ -45,7 +45,7 @@ abbrev CCtx := Int × List PEv
 /-- sort.SliceStable by z-index: stable insertion sort -/
 def insertZ (x : CCtx) : List CCtx → List CCtx
   | [] => [x]
-  | y :: ys => if x.1 < y.1 then x :: y :: ys else y :: insertZ x ys
+  | y :: ys => if x.1 ≤ y.1 then x :: y :: ys else y :: insertZ x ys
 
 def sortZ : List CCtx → List CCtx
   | [] => []
